@@ -116,3 +116,158 @@ Proof.
 Qed.
 Lemma blen_app a b : blen (a ++ b) = blen a + blen b.
 Proof. unfold blen. rewrite app_length. lia. Qed.
+
+(* ---------- io.ReadFull over fragments = rd_full over the normalised reader ---------- *)
+Definition adj (got : bytes) (e : option err) : option err :=
+  match e, got with Some EEOF, _ :: _ => Some EUnexpectedEOF | _, _ => e end.
+
+Lemma canon_not_eof en : canon en <> Some EEOF.
+Proof. destruct en as [[]|]; cbn; congruence. Qed.
+
+Lemma rd_full_0 r : rd_full 0 r = ([], None, r).
+Proof. reflexivity. Qed.
+
+Lemma read_loop_0 fuel got src : read_loop fuel 0 got src = (got, None, src).
+Proof. destruct fuel; reflexivity. Qed.
+
+Lemma read_loop_norm sk : forall fuel need got src bs e src' bs2 e2 r',
+  (need = 0 \/ (length (s_frags src) < fuel)%nat) ->
+  read_loop fuel need got src = (bs, e, src') ->
+  rd_full need (norm sk src) = (bs2, e2, r') ->
+  bs = got ++ bs2 /\ e = adj got e2 /\ norm sk src' = r'.
+Proof.
+  induction fuel as [|f IH]; intros need got src bs e src' bs2 e2 r' Hf.
+  { destruct Hf as [->|Hf]; [|lia]. rewrite read_loop_0, rd_full_0.
+    intros H1 H2; inversion H1; inversion H2; subst. rewrite app_nil_r. auto. }
+  destruct (N.eq_dec need 0) as [->|Hn].
+  { rewrite read_loop_0, rd_full_0.
+    intros H1 H2; inversion H1; inversion H2; subst. rewrite app_nil_r. auto. }
+  destruct Hf as [Hf|Hf]; [contradiction|].
+  cbn [read_loop]. destruct (need =? 0) eqn:En0; [apply N.eqb_eq in En0; contradiction|].
+  destruct src as [fs en]. cbn [s_frags] in Hf.
+  destruct fs as [|[b0|b0] rest]; unfold read1; cbn [s_frags s_end].
+  - (* no fragment left *)
+    destruct (need <=? blen []) eqn:E1; [apply N.leb_le in E1; cbn in E1; lia|].
+    unfold rd_full, norm, concat_data, src_end. cbn [s_frags s_end frags_data frags_end r_buf r_end r_seek].
+    rewrite En0. replace (need <=? blen []) with false.
+    intros H1 H2; inversion H1; inversion H2; subst; clear H1 H2.
+    rewrite !app_nil_r. split; [reflexivity|split; [|reflexivity]].
+    destruct en as [[]|]; destruct got; reflexivity.
+  - (* a data fragment *)
+    destruct (blen b0 <=? need) eqn:E1.
+    + apply N.leb_le in E1. intros H1 H2.
+      destruct (rd_full (need - blen b0) (norm sk {| s_frags := rest; s_end := en |})) as [[b3 e3] r3] eqn:E3.
+      assert (Hf' : (length (s_frags {| s_frags := rest; s_end := en |}) < f)%nat) by (cbn [s_frags length] in *; lia).
+      specialize (IH _ _ _ _ _ _ _ _ _ (or_intror Hf') H1 E3).
+      destruct IH as [I1 [I2 I3]].
+      revert H2 E3. unfold rd_full, norm, concat_data, src_end.
+      cbn [s_frags s_end frags_data frags_end r_buf r_end r_seek].
+      rewrite En0. rewrite blen_app.
+      destruct (need - blen b0 =? 0) eqn:E4.
+      * apply N.eqb_eq in E4. replace (need <=? blen b0 + blen (frags_data rest)) with true by lia.
+        rewrite take_app_le, drop_app_le by lia. rewrite take_all, drop_all by lia.
+        intros H2 H3; inversion H2; inversion H3; subst; clear H2 H3.
+        rewrite app_nil_r. cbn [app]. auto.
+      * destruct (need - blen b0 <=? blen (frags_data rest)) eqn:E5.
+        -- replace (need <=? blen b0 + blen (frags_data rest)) with true by lia.
+           rewrite take_app_ge, drop_app_ge by lia.
+           intros H2 H3; inversion H2; inversion H3; subst; clear H2 H3.
+           rewrite app_assoc. auto.
+        -- replace (need <=? blen b0 + blen (frags_data rest)) with false by lia.
+           intros H2 H3; inversion H2; inversion H3; subst; clear H2 H3.
+           rewrite app_assoc. split; [reflexivity|split; [|symmetry; assumption]].
+           pose proof (canon_not_eof (frags_end rest en)) as Hc.
+           destruct (canon (frags_end rest en)) as [x|].
+           ++ destruct x; try reflexivity. congruence.
+           ++ destruct b0, (frags_data rest), got; reflexivity.
+    + apply N.leb_gt in E1. assert (Ht : blen (take need b0) = need) by (unfold blen in *; rewrite take_length; unfold blen; lia).
+      rewrite Ht, N.sub_diag, read_loop_0.
+      unfold rd_full, norm, concat_data, src_end.
+      cbn [s_frags s_end frags_data frags_end r_buf r_end r_seek].
+      rewrite En0, blen_app. replace (need <=? blen b0 + blen (frags_data rest)) with true by lia.
+      rewrite take_app_le, drop_app_le by lia.
+      intros H1 H2; inversion H1; inversion H2; subst; clear H1 H2. auto.
+  - (* data together with EOF *)
+    destruct (blen b0 <=? need) eqn:E1.
+    + apply N.leb_le in E1.
+      unfold rd_full, norm, concat_data, src_end.
+      cbn [s_frags s_end frags_data frags_end r_buf r_end r_seek canon]. rewrite En0.
+      destruct (need <=? blen b0) eqn:E2.
+      * apply N.leb_le in E2. rewrite take_all, drop_all by lia.
+        intros H1 H2; inversion H1; inversion H2; subst; clear H1 H2. auto.
+      * intros H1 H2; inversion H1; inversion H2; subst; clear H1 H2.
+        split; [reflexivity|split; [|reflexivity]].
+        destruct bs2, got; reflexivity.
+    + apply N.leb_gt in E1. assert (Ht : blen (take need b0) = need) by (unfold blen in *; rewrite take_length; unfold blen; lia).
+      rewrite Ht, N.sub_diag, read_loop_0.
+      unfold rd_full, norm, concat_data, src_end.
+      cbn [s_frags s_end frags_data frags_end r_buf r_end r_seek canon].
+      rewrite En0. replace (need <=? blen b0) with true by lia.
+      intros H1 H2; inversion H1; inversion H2; subst; clear H1 H2. auto.
+Qed.
+
+Theorem read_full_norm sk n src :
+  let '(bs, e, src') := read_full_frags n src in
+  let '(bs2, e2, r') := rd_full n (norm sk src) in
+  bs = bs2 /\ e = e2 /\ norm sk src' = r'.
+Proof.
+  destruct (read_full_frags n src) as [[bs e] src'] eqn:E1.
+  destruct (rd_full n (norm sk src)) as [[bs2 e2] r'] eqn:E2.
+  unfold read_full_frags in E1.
+  destruct (read_loop_norm sk _ _ _ _ _ _ _ _ _ _ (or_intror (Nat.lt_succ_diag_r _)) E1 E2) as [A [B C]].
+  cbn [app] in A. split; [exact A|split; [|exact C]].
+  rewrite B. destruct e2 as [[]|]; reflexivity.
+Qed.
+
+(* any sequence of ReadFull calls sees the same thing *)
+Fixpoint reads_frags (ns : list N) (src : source) : list (bytes * option err) :=
+  match ns with
+  | [] => []
+  | n :: ns' => let '(b, e, src') := read_full_frags n src in (b, e) :: reads_frags ns' src'
+  end.
+Fixpoint reads_rdr (ns : list N) (r : rdr) : list (bytes * option err) :=
+  match ns with
+  | [] => []
+  | n :: ns' => let '(b, e, r') := rd_full n r in (b, e) :: reads_rdr ns' r'
+  end.
+
+Theorem reads_norm sk : forall ns src, reads_frags ns src = reads_rdr ns (norm sk src).
+Proof.
+  induction ns as [|n ns IH]; intros src; [reflexivity|]. cbn [reads_frags reads_rdr].
+  pose proof (read_full_norm sk n src) as H.
+  destruct (read_full_frags n src) as [[bs e] src'].
+  destruct (rd_full n (norm sk src)) as [[bs2 e2] r'].
+  destruct H as [-> [-> <-]]. rewrite IH. reflexivity.
+Qed.
+
+(* ---------- C15: the lexer cannot observe fragmentation ---------- *)
+Definition lex_all_frags (lo : lopts) (dstream : doracle) (fuel : nat) (sk : bool) (src : source) :=
+  lex_all lo dstream fuel (norm sk src).
+
+Theorem lex_all_frags_indep lo dstream fuel sk src src' :
+  concat_data src = concat_data src' -> src_end src = src_end src' ->
+  lex_all_frags lo dstream fuel sk src = lex_all_frags lo dstream fuel sk src'.
+Proof. intros H1 H2. unfold lex_all_frags, norm. rewrite H1, H2. reflexivity. Qed.
+
+Theorem reads_frags_indep ns src src' :
+  concat_data src = concat_data src' -> src_end src = src_end src' ->
+  reads_frags ns src = reads_frags ns src'.
+Proof.
+  intros H1 H2. rewrite (reads_norm false ns src), (reads_norm false ns src').
+  unfold norm. rewrite H1, H2. reflexivity.
+Qed.
+
+(* splitting a byte string into one-byte fragments *)
+Definition one_byte_frags (b : bytes) : list frag := map (fun x => FData [x]) b.
+Lemma one_byte_frags_data b : frags_data (one_byte_frags b) = b.
+Proof. unfold one_byte_frags. induction b as [|x b IH]; [reflexivity|]. cbn [map frags_data app]. rewrite IH. reflexivity. Qed.
+Lemma one_byte_frags_end b en : frags_end (one_byte_frags b) en = en.
+Proof. unfold one_byte_frags. induction b as [|x b IH]; [reflexivity|]. cbn [map frags_end]. exact IH. Qed.
+
+(* one byte at a time, or everything at once together with EOF: same normal form *)
+Lemma norm_one_byte sk b en :
+  norm sk {| s_frags := one_byte_frags b; s_end := en |} = {| r_buf := b; r_end := canon en; r_seek := sk |}.
+Proof. unfold norm, concat_data, src_end. cbn [s_frags s_end]. rewrite one_byte_frags_data, one_byte_frags_end. reflexivity. Qed.
+Lemma norm_data_eof sk b rest en :
+  norm sk {| s_frags := FDataEOF b :: rest; s_end := en |} = {| r_buf := b; r_end := None; r_seek := sk |}.
+Proof. reflexivity. Qed.
